@@ -797,24 +797,46 @@ def to_id(f: Callable[[T], Any]) -> Callable[[T], T]:
 
 
 def instantiate_escaped_symbols(text: str) -> str:
-    backslash_escape_placeholder = "$$BESC$$"
-    assert backslash_escape_placeholder not in text
+    r"""
+    Replaces the escape sequences `\\`, `\b`, `\t`, `\n`, `\r`, `\"`, and `\xhh`
+    (two lower-case hexadecimal digits) in `text` by the characters they represent,
+    in a single pass from left to right.
 
-    repl_map = {
-        r"\b": "\b",
-        r"\t": "\t",
-        r"\n": "\n",
-        r"\r": "\r",
-        r"\"": '"',
-        r"\x0b": "\x0b",
-        r"\x0c": "\x0c",
-    } | {r"\x" + hex(i)[2:].rjust(2, "0"): chr(i) for i in range(0, 256)}
+    >>> instantiate_escaped_symbols(r'a\tb\\n\x41\"')
+    'a\tb\\nA"'
 
-    text = text.replace("\\\\", backslash_escape_placeholder)
-    for escaped_char in repl_map:
-        text = text.replace(escaped_char, repl_map[escaped_char])
+    :param text: The text with escape sequences.
+    :return: The text with the escape sequences instantiated.
+    """
 
-    return text.replace(backslash_escape_placeholder, "\\")
+    simple_escapes = {"\\": "\\", "b": "\b", "t": "\t", "n": "\n", "r": "\r", '"': '"'}
+    hex_digits = "0123456789abcdef"
+
+    result: List[str] = []
+    idx = 0
+    while idx < len(text):
+        char = text[idx]
+        if char == "\\" and idx + 1 < len(text):
+            next_char = text[idx + 1]
+            if next_char in simple_escapes:
+                result.append(simple_escapes[next_char])
+                idx += 2
+                continue
+
+            if (
+                next_char == "x"
+                and idx + 3 < len(text)
+                and text[idx + 2] in hex_digits
+                and text[idx + 3] in hex_digits
+            ):
+                result.append(chr(int(text[idx + 2 : idx + 4], 16)))
+                idx += 4
+                continue
+
+        result.append(char)
+        idx += 1
+
+    return "".join(result)
 
 
 def get_elem_by_equivalence(
